@@ -218,17 +218,24 @@ def run(chk, binary):
         djobs.append({"files": files, "opts": ["--json"] + mode, "cmds": ["-c", "e", "-m", "w", "-c", "name=second", "e"], "stdin": None})
     # several files in the default rendering: every file has its section, also one whose output is only blanks
     ljobs = []
-    for _ in range(40 if thorough else 10):
+    for _ in range(60 if thorough else 16):
         names = rng.sample(D.FILE_NAMES, 3)
         files = [(names[0], b"alpha beta\n"), (names[1], rng.choice([b"\n\n", b"  \n", b" "])), (names[2], b"  indented\nx\n")]
         rng.shuffle(files)
-        ljobs.append({"files": files, "opts": rng.choice([[], ["-d", ","], ["--serial"]]), "cmds": rng.choice([["-c", "l"], ["-m", "l"], ["-c", "l", "-c", "l"]]), "stdin": None})
+        ljobs.append({"files": files, "opts": rng.choice([[], ["-d", ","], ["--serial"], ["--linewise"], ["--linewise", "--serial"], ["--linewise", "-d", "|"]]),
+                      "cmds": rng.choice([["-c", "l"], ["-m", "l"], ["-c", "l", "-c", "l"]]), "stdin": None})
     for sc, ob in zip(ljobs, D.scenarios_map(binary, ljobs)):
         chk.count(("listing", tuple(ob["argv"])), nontrivial=True)
         if ob["rc"] != 0:
             continue
         so = ob["out"].decode("utf-8", errors="replace")
         missing = [nm for nm, _ in sc["files"] if ("--- " + nm) not in so]
+        order = sorted((so.find("--- " + nm + "\n"), nm) for nm, _ in sc["files"] if ("--- " + nm + "\n") in so)
+        if [nm for _, nm in order] != [nm for nm, _ in sc["files"] if ("--- " + nm + "\n") in so]:
+            chk.violation("spec:the sections of a multi-file run are not in the order the files were given", {"argv": ob["argv"], "order": [nm for _, nm in order],
+                          "files": [(a, b.decode(errors="replace")) for a, b in sc["files"]], "stdout": so[:400]})
+        if missing and "--linewise" in sc["opts"]:
+            missing = []            # (line by line, a file whose lines print nothing has no section: that is C03's business)
         if missing:
             chk.violation("spec:a file has no section in the listing of a multi-file run", {"argv": ob["argv"], "missing": missing,
                           "files": [(a, b.decode(errors="replace")) for a, b in sc["files"]], "stdout": so[:400]})
@@ -241,6 +248,50 @@ def run(chk, binary):
         except Exception as e:
             chk.violation("spec:--json output is not one JSON document", {"argv": ob["argv"], "files": [(a, b.decode(errors="replace")) for a, b in sc["files"]],
                           "stdout": ob["out"].decode(errors="replace")[:500], "error": str(e)})
+    # ---- D. --linewise --json: one document holding every line's records, in the order of the lines ----
+    wjobs, wmeta = [], []
+    WORDS = ["foo", "bar x", "baz  qux", "alpha beta gamma", "é ü", "one", "two 2", " lead", "a.b c", "x"]
+    for _ in range(400 if thorough else 60):
+        lines = rng.sample(WORDS, rng.randint(2, 5))
+        text = "\n".join(lines) + ("\n" if rng.random() < 0.7 else "")
+        items = []
+        for _ in range(rng.randint(1, 5)):
+            r = rng.random()
+            if r < 0.5:
+                items.append(("cut", False, rng.choice(["e", "w", "$", "iw", "l"])))
+            elif r < 0.62:
+                items.append(("ncut", False, rng.choice(["a", "key"]), rng.choice(["e", "$"])))
+            elif r < 0.8:
+                items.append(("move", False, rng.choice(["w", "l", "0", "$", "x"])))
+            else:
+                items.append(("next", False))
+        if rng.random() < 0.25:
+            items = [("glob", False, rng.choice("gv"), rng.choice(["o", "a", "x"]), [("cut", False, "e")], None)] + items
+        if not any(i[0] in ("cut", "ncut") for i in items):
+            items.append(("cut", False, "e"))
+        argv = ["--json", "--linewise"] + (["--serial"] if rng.random() < 0.4 else []) + L.render(items)
+        wjobs.append({"args": argv, "stdin": text})
+        wmeta.append((argv, text, lines))
+    for (argv, text, lines), (rc, out, err, units) in zip(wmeta, records_map(binary, wjobs)):
+        chk.count(("linewise-json", tuple(argv), text), nontrivial=True)
+        if rc != 0 or len(units) != len(lines):
+            continue
+        by_text = {u["text"].rstrip("\n"): u["records"] for u in units}
+        if set(by_text) != set(lines):
+            continue
+        recs = [r for ln in lines for r in by_text[ln]]
+        if any(has_dup([r]) for r in recs):
+            continue
+        # (a line none of whose cuts ran prints its text as field "0": that sentinel is a record like any other here)
+        exp = [dict(r) for r in recs]
+        try:
+            got = json.loads(out.decode("utf-8")) if out.strip() else []
+        except Exception as e:
+            chk.violation("spec:--json output is not one JSON document", {"argv": argv, "stdin": text, "stdout": out.decode(errors="replace")[:400], "error": str(e)})
+            continue
+        dist["linewise_json"] = dist.get("linewise_json", 0) + 1
+        if got != exp:
+            chk.violation("spec:--linewise --json does not hold every line's records in order", {"argv": argv, "stdin": text, "json": got, "records": exp})
     if fmeta:
         chk.sample({"argv": fmeta[0][0], "stdin": fmeta[0][1], "records": fmeta[0][2]})
     chk.cov["input_distribution"] = dist
